@@ -157,6 +157,77 @@ pub fn run(ctx: &Ctx) -> CheckResult {
         c.meta = json!({"stale": [], "variant": "stdout-vs-o", "reference_steps": [reference_argv], "reference_no_stdout_redirect": true});
         cases.push(c);
     }
+    // ---- (1d) the decompiled script lives in another directory than the one the commands run in, and a
+    // different file with the mapfile's relative name sits next to it: `#pragma mapfile` paths mean what
+    // `-m` meant (relative to the working directory), so the decoy must be ignored
+    for item in bins.iter().filter(|b| b.mapfile.is_some()) {
+        let mut c = scen::binary_roundtrip_case(item, &[], None, true);
+        let dec_path = format!("proj/{}", scen::DEC);
+        for st in c.steps.iter_mut() {
+            for a in st.argv.iter_mut() {
+                if a == scen::DEC {
+                    *a = dec_path.clone();
+                }
+            }
+        }
+        let m = item.mapfile.clone().unwrap();
+        let magic = match item.cmd.as_str() {
+            "truanm" => "!anmmap",
+            "trustd" => "!stdmap",
+            "trumsg" => "!msgmap",
+            _ => "!eclmap",
+        };
+        let mut decoy = format!("{}\n!ins_signatures\n", magic);
+        for op in 0..48 {
+            decoy.push_str(&format!("{} s--\n", op));
+        }
+        decoy.push_str("!ins_names\n0 decoyZero\n1 decoyOne\n2 decoyTwo\n");
+        c.inputs.push(crate::case::Input::text(&format!("proj/{}", m), &decoy));
+        c.inputs.push(crate::case::Input::text("proj/.keep", ""));
+        c.name = format!("{} [script in proj/, decoy proj/{}]", c.name, m);
+        c.property = "C01".into();
+        c.oracle = "roundtrip".into();
+        c.meta = json!({"orig_step": null, "orig_file": item.path.clone().unwrap(), "dec": 0, "comp": 1, "item": item.id});
+        cases.push(c);
+    }
+    // ---- (1e) two mapfiles that disagree about signatures, given in an order that is not their sorted
+    // order (the later one overrides): the decompiled text must name them in load order, because the
+    // recompile -- from the text's own #pragma lines, no -m -- applies them in the order it finds them
+    for item in scen::source_items(&ctx.corpus).into_iter().filter(|i| i.id.starts_with("gen/") && i.mapfiles.len() == 1 && !i.id.contains("msg")).step_by(if quick { 6 } else { 1 }) {
+        let mut c = scen::source_roundtrip_case(item, &[], None);
+        // the base map: every dword integer of the item's signatures narrowed to a padded word
+        let base_map: String = item.mapfiles[0]
+            .lines()
+            .map(|l| {
+                let mut it = l.splitn(2, ' ');
+                match (it.next().and_then(|a| a.parse::<i64>().ok()), it.next()) {
+                    (Some(op), Some(sig)) if !sig.contains('(') && sig.contains('S') => format!("{} {}", op, sig.replace('S', "s--")),
+                    _ => l.to_string(),
+                }
+            })
+            .collect::<Vec<_>>()
+            .join("\n");
+        c.inputs.push(crate::case::Input::text("zz-base.map", &base_map));
+        for k in 0..2 {
+            if let Some(p) = c.steps[k].argv.iter().position(|a| a == "-m") {
+                c.steps[k].argv.insert(p, "zz-base.map".into());
+                c.steps[k].argv.insert(p, "-m".into());
+            }
+        }
+        let mut k = 0;
+        while k < c.steps[2].argv.len() {
+            if c.steps[2].argv[k] == "-m" {
+                c.steps[2].argv.drain(k..k + 2);
+            } else {
+                k += 1;
+            }
+        }
+        c.name = format!("{} [-m zz-base.map -m mapfile-1; recompiled from the text's pragmas]", c.name);
+        c.property = "C01".into();
+        c.oracle = "roundtrip".into();
+        c.meta = json!({"orig_step": 0, "orig_file": scen::OUT, "dec": 1, "comp": 2, "item": item.id});
+        cases.push(c);
+    }
     // ---- (2) compiler outputs of the corpus
     for item in scen::source_items(&ctx.corpus) {
         if item.tags.iter().any(|t| t == "no-roundtrip") {
